@@ -582,7 +582,11 @@ inductive Stmt
   | grp (g : GroupLine)
   | valtype (v : ValTypeLine)
   | mul (m : MulLine)
+  | bu (names : List Str)           -- the list of ECUs: `BU_: A B C `
   deriving Repr, DecidableEq, Inhabited
+
+/-- `"BU_: "` and every name followed by a blank -/
+def renderBu (names : List Str) : Str := "BU_: ".toList ++ names.flatMap fun n => n ++ [' ']
 
 def Stmt.line : Stmt → Str
   | .bo b => renderBo b
@@ -597,6 +601,7 @@ def Stmt.line : Stmt → Str
   | .grp g => renderGroup g
   | .valtype v => renderValType v
   | .mul m => renderMul m
+  | .bu names => renderBu names
 
 /-- what the statement says to the reader (numbers of an `SG_` line as they are read back) -/
 def Stmt.item : Stmt → Option Item
@@ -612,6 +617,7 @@ def Stmt.item : Stmt → Option Item
   | .grp g => some (.grp g)
   | .valtype v => some (.valtype v.id v.name)
   | .mul m => some (.mul m)
+  | .bu names => some (.bu names)
 
 /-- the envelope of each statement kind (what the writer emits: identifier-like names, `VAL_` and `SG_MUL_VAL_` never without entries) -/
 def Stmt.wf : Stmt → Bool
@@ -627,6 +633,7 @@ def Stmt.wf : Stmt → Bool
   | .grp g => wfGroup g
   | .valtype v => wfValType v
   | .mul m => wfMul m && !m.ranges.isEmpty
+  | .bu names => names.all fun n => isIdent n && n.length ≥ 2      -- (the reader drops names of one character)
 
 def writeStmts (ss : List Stmt) : List Str := ss.map Stmt.line
 
